@@ -174,18 +174,15 @@ RecentFees(chainRev, n) ==      \* chainRev: best chain from the tip backwards
            take == IF Len(r) <= n THEN r ELSE SubSeq(r, 1, n)
        IN take \o RecentFees(Tail(chainRev), n - Len(take))
 
-\* nearest-rank percentiles 0..100 of a bag given as a sequence, via a histogram
+\* nearest-rank percentiles 0..100 of a bag given as a sequence: the element of rank
+\* max(1, ceil(p * n / 100)) of the sorted bag
 Percentiles(rates) ==
   IF Len(rates) = 0 THEN <<>> ELSE
   LET n == Len(rates)
-      vals == {rates[i] : i \in 1..n}
-      hist == [v \in vals |-> Cardinality({i \in 1..n : rates[i] = v})]
-      cum  == [v \in vals |-> FoldSet(LAMBDA w, acc : acc + hist[w], 0, {w \in vals : w <= v})]
-      AtRank(r) == CHOOSE v \in vals : cum[v] >= r /\ \A w \in vals : w < v => cum[w] < r
+      sorted == SortSeq(rates, LAMBDA a, b : a < b)
       CeilDiv(a, b) == (a + b - 1) \div b
-  IN [q \in 1..101 |-> LET p == q - 1
-                           r == CeilDiv(p * n, 100)
-                       IN AtRank(IF r < 1 THEN 1 ELSE r)]
+      \* (SubSeq makes TLC build an explicit tuple instead of keeping a lazily evaluated function)
+  IN SubSeq([q \in 1..101 |-> LET r == CeilDiv((q - 1) * n, 100) IN sorted[IF r < 1 THEN 1 ELSE r]], 1, 101)
 
 \* the answer of a fee query and the cache afterwards
 FeeEval(m) ==
